@@ -156,7 +156,8 @@ pub enum Res {
     Extend { ids: Vec<u32>, reported: usize, written: usize, panicked: bool },
     Get { idx: u32, got: Option<u32> },
     Count { n: u32 },
-    Snapshot { start: u32, end: u32, items: Vec<(u32, Option<u32>)>, par: bool },
+    /// items: (index, id if present, stamp taken right after the element was looked up)
+    Snapshot { start: u32, end: u32, items: Vec<(u32, Option<u32>, u64)>, par: bool },
 }
 
 #[derive(Clone, Debug)]
@@ -270,7 +271,7 @@ fn exec(sh: &Shared, thread: usize, op: &Op) {
         Op::Count => Res::Count { n: sh.vec.count() },
         Op::Snapshot { start, par } => {
             let start = (*start).min(sh.vec.count());
-            let items: Mutex<Vec<(u32, Option<u32>)>> = Mutex::new(Vec::new());
+            let items: Mutex<Vec<(u32, Option<u32>, u64)>> = Mutex::new(Vec::new());
             let visit = |idx: u32, it: Option<Item<'_, Tracked>>| {
                 let v = match it {
                     None => None,
@@ -282,7 +283,7 @@ fn exec(sh: &Shared, thread: usize, op: &Op) {
                         }
                     },
                 };
-                items.lock().unwrap().push((idx, v));
+                items.lock().unwrap().push((idx, v, stamp()));
             };
             let end = if *par {
                 sh.vec.par_snapshot(start, visit)
@@ -302,7 +303,7 @@ fn exec(sh: &Shared, thread: usize, op: &Op) {
 }
 
 /// offline checker of a recorded history against the append-only sequence model
-pub fn check_history(sh: &Shared, log: &[Ev]) -> Vec<(String, String)> {
+pub fn check_history(sh: &Shared, log: &[Ev], per_element: bool) -> Vec<(String, String)> {
     let mut out: Vec<(String, String)> = Vec::new();
     let mut v = |kind: &str, msg: String| {
         if out.len() < 8 {
@@ -440,7 +441,7 @@ pub fn check_history(sh: &Shared, log: &[Ev]) -> Vec<(String, String)> {
                 if want != got {
                     v("snapshot-indices", format!("snapshot({start}) par={par} yielded {} entries for {start}..{end}", got.len()));
                 }
-                for (idx, it) in items {
+                for (idx, it, looked_up) in items {
                     match it {
                         Some(id) if *id != u32::MAX => {
                             if at.get(idx) != Some(id) {
@@ -450,8 +451,12 @@ pub fn check_history(sh: &Shared, log: &[Ev]) -> Vec<(String, String)> {
                         Some(_) => (),
                         None => {
                             if let Some(ret) = visible_after.get(idx) {
-                                if *ret < e.call {
-                                    v("snapshot-none-after-push-returned", format!("index {idx}"));
+                                // in a controlled schedule nothing can run between an element's lookup and
+                                // its stamp, so the element level rule is exact; free running threads are
+                                // judged at the level of the whole snapshot call
+                                let bound = if per_element { *looked_up } else { e.call };
+                                if *ret < bound {
+                                    v("snapshot-none-after-push-returned", format!("index {idx} (lookup stamp {looked_up}, push returned at {ret})"));
                                 }
                             }
                         }
@@ -642,7 +647,7 @@ pub fn run_lin(opts: &Opts, rep: &mut Report) {
         if cas_threads.len() >= 2 {
             rep.count("schedules-with-competing-bucket-allocation");
         }
-        let viol = check_history(&sh, &log);
+        let viol = check_history(&sh, &log, true);
         let final_count = sh.vec.count();
         for e in &log {
             if let Res::Get { idx, got: None } = &e.res {
@@ -782,7 +787,7 @@ pub fn run_stress(opts: &Opts, rep: &mut Report, small: bool) {
         if rep.want_sample() && idx % 13 == 1 {
             rep.sample(jobj! {"threads" => nthreads, "capacity" => cap, "columns" => ncols, "ops_per_thread" => nops, "final_count" => final_count});
         }
-        for (kind, msg) in check_history(&sh, &log) {
+        for (kind, msg) in check_history(&sh, &log, false) {
             rep.violation(
                 "C08",
                 &kind,
@@ -861,7 +866,7 @@ pub fn run_drop(opts: &Opts, rep: &mut Report, small: bool) {
         // the last handle goes away
         reg.live_handles.store(0, Ordering::Relaxed);
         let final_count = sh.vec.count();
-        let history_problems = check_history(&sh, &log);
+        let history_problems = check_history(&sh, &log, false);
         drop(sh);
         let mut h = Hasher64::new();
         h.add(final_count as u64);
